@@ -160,7 +160,9 @@ func c11Build(pattern string) (*c11Ops, error, error) {
 	return o, nil, nil
 }
 
-func (o *c11Ops) hasPrefilter() bool { return o.known && (o.info.HasPrefilter || o.info.ExactMatch != "") }
+func (o *c11Ops) hasPrefilter() bool {
+	return o.known && (o.info.HasPrefilter || o.info.ExactMatch != "")
+}
 
 // c11Kind names the divergence between the on and off results ("" = none).
 func c11Kind(on, off c11Res) string {
